@@ -23,6 +23,13 @@ packet = packet, packet = map variable, map variable = packet, packet += map var
 packet += packet - with values both formats can hold (boundaries of the narrower one, negative
 values, asymmetric and random ones).  Thorough: all 32 x 32 pairs; quick: a rotating third / ninth.
 
+Use grid (the value of the packet variable used other than by a plain copy): as a CONDITION -
+`with pv <rel> rhs: branch = 1 / Else: branch = 2`, the one caller that leaves the width of the value
+open - for 32 formats x 6 relations x right-hand constants (small, the format's limits, beyond 32
+bits, both signs) or another variable of the same signedness, directly and as `pv + ka`; and inside
+arithmetic that is assigned (`other = pv + ka`).  Field values next to the right-hand side, at the
+limits, and values that differ from their own low 32 bits; the spec compares exact integers.
+
 Where the kernel is usable, every distinct program is also given to the verifier (a rejection is
 recorded in the case: a C05-type fact; the C07 verdict is the machine's fault) and every run on a
 packet of >= 14 bytes is executed by the kernel too; the kernel's final packet / map / return
@@ -65,11 +72,32 @@ def make_class(s):
         ns["oth"] = m.globalVar(s["ofmt"])
     else:
         ns["oth"] = PacketVar(s["o"], s["ofmt"])
+    if op == "cmp":
+        ns["branch"] = m.globalVar("I")
+
+    def use(self, pk):
+        """the packet variable's value used inside an expression (reada) or as a condition (cmp: the
+        one caller that leaves the width of the value open)"""
+        val = self.pv if s["acc"] == "var" else getattr(pk, "p" + fmt)[p]
+        ka = s["ka"]
+        lhs = val if ka == 0 else val + ka if ka > 0 else val - (-ka)
+        if op == "reada":
+            self.oth = lhs
+            return
+        rhs = s["kc"] if s["rhs"] == "const" else self.oth
+        cond = {"gt": lambda: lhs > rhs, "ge": lambda: lhs >= rhs, "lt": lambda: lhs < rhs,
+                "le": lambda: lhs <= rhs, "eq": lambda: lhs == rhs, "ne": lambda: lhs != rhs}[s["rel"]]
+        with cond() as Else:
+            self.branch = 1
+        with Else:
+            self.branch = 2
 
     def access(self, pk):
         if op == "none":
             return
-        if s["acc"] == "var":
+        if op in ("cmp", "reada"):
+            use(self, pk)
+        elif s["acc"] == "var":
             if op == "read":
                 self.oth = self.pv
             elif op == "write":
@@ -121,14 +149,14 @@ def make_class(s):
     return type("P_" + s["guard"], (XDP,), ns)
 
 
-def shape(acc, guard, n, fmt, op, p, k=0, ofmt="q", okind="map", o=0):
+def shape(acc, guard, n, fmt, op, p, k=0, ofmt="q", okind="map", o=0, rel="gt", rhs="const", ka=0, kc=0):
     size = SIZE[fmt[-1]]
     need = 0 if op == "none" else p + size
     if okind == "pkt" and op in ("read", "write", "iaddv"):
         need = max(need, o + SIZE[ofmt[-1]])
     return dict(acc=acc, guard=guard, n=n, abr=2 if guard in ("lt", "le") else 1, fmt=fmt,
                 order=fmt[:-1], letter=fmt[-1], size=size, op=op, p=p, k=k, ofmt=ofmt, okind=okind, o=o,
-                osz=SIZE[ofmt[-1]], need=need)
+                osz=SIZE[ofmt[-1]], need=need, rel=rel, rhs=rhs, ka=ka, kc=kc)
 
 
 def offsets(n, size):
@@ -214,6 +242,101 @@ def pair_grid(quick):
                     continue
                 p, o = (1, 12) if (i + j) % 2 == 0 else (12, 3)
                 out.append(shape("var", "min", NP, f1, op, p, 0, f2, okind, o if okind == "pkt" else 0))
+    return out
+
+
+RELS = ("gt", "ge", "lt", "le", "eq", "ne")
+WIDE = [(1 << 32) + 5, 1 << 40, -(1 << 32) + 2000, -(1 << 40) - 7, (1 << 62) + 123, -(1 << 62) + 77,
+        0x123456789, (1 << 63) + 9, 0x80000000, 0x7fffffff, -0x80000000, 0xffffffff, 0x8000, -0x8000]
+
+
+def compare_constants(fmt):
+    """right-hand constants an 8-byte variable of the format's signedness can hold: small ones, the
+    format's own limits, and ones beyond 32 bits (a narrow variable may be compared with them too)"""
+    lo, hi = frange(fmt)
+    if fmt[-1].islower():
+        return [0, 1000, -3, hi, lo, (1 << 32) + 1, -(1 << 33), (1 << 62) + 123, 0x7fffffff]
+    return [0, 1000, hi, (hi >> 1) + 1, (1 << 32) + 1, (1 << 63) + 5, 0x80000000, 0x7fffffff, 77]
+
+
+def use_grid(quick):
+    """the packet variable's value used as a CONDITION (`with pv <rel> rhs:` - the width is left open)
+    and inside arithmetic (`pv + ka` compared or assigned): 32 formats x 6 relations x constants
+    (thorough: 3 of 9 per (format, relation), rotating; quick: 1) / another variable of the same
+    signedness; native unsigned formats also through the packet arrays."""
+    fmts = [o + l for o in ORDERS for l in LETTERS]
+    out = []
+    for fi, fmt in enumerate(fmts):
+        size = SIZE[fmt[-1]]
+        kcs = compare_constants(fmt)
+        signed = fmt[-1].islower()
+        others = [fmt, "q" if signed else "Q", (">" if fmt[0] not in ">!" else "<") + ("h" if signed else "H"),
+                  ("!" if fmt[0] != "!" else "") + ("i" if signed else "I")]
+        for ri, rel in enumerate(RELS):
+            acc = "arr" if fmt in "BHIQ" and (fi + ri) % 2 else "var"
+            p = (1, 12, 5)[(fi + ri) % 3] if acc == "var" else (0, 12, 4)[(fi + ri) % 3]
+            for t in range(1 if quick else 3):
+                kc = kcs[(fi + 2 * ri + t) % len(kcs)]
+                out.append(shape(acc, "min", NP, fmt, "cmp", p, rel=rel, kc=kc))
+            # the value inside arithmetic inside the condition
+            if not quick or ri == fi % 6:
+                ka = 1 if (fi + ri) % 2 == 0 or not signed else -1
+                out.append(shape(acc, "min", NP, fmt, "cmp", p, rel=rel, ka=ka, kc=kcs[(fi + ri) % len(kcs)]))
+            # against another variable
+            for t in range(1 if quick else 2):
+                if quick and (ri + fi) % 3:
+                    continue
+                out.append(shape(acc, "min", NP, fmt, "cmp", p, rel=rel, rhs="other",
+                                 ofmt=others[(fi + ri + t) % len(others)]))
+        for t, ka in enumerate((1, -1 if signed else 200)):
+            if quick and t != fi % 2:
+                continue
+            out.append(shape("var", "min", NP, fmt, "reada", 3, ka=ka, ofmt="q" if signed else "Q"))
+    return out
+
+
+def random_uses(rng, count):
+    out = []
+    for _ in range(count):
+        fmt = rng.choice(ORDERS) + rng.choice(LETTERS)
+        signed = fmt[-1].islower()
+        lo8, hi8 = (-(1 << 63), (1 << 63) - 1) if signed else (0, (1 << 64) - 1)
+        kc = rng.choice(compare_constants(fmt) + [rng.randrange(lo8, hi8 + 1), rng.randrange(-1000, 1000) if signed
+                                                  else rng.randrange(0, 1000)])
+        ka = rng.choice([0, 0, 1, 7, -1 if signed else 3])
+        n = rng.randrange(KMIN, 25)
+        p = rng.randrange(0, n - SIZE[fmt[-1]] + 1)
+        if rng.random() < 0.25:
+            out.append(shape("var", "min", n, fmt, "reada", p, ka=ka or 1, ofmt="q" if signed else "Q"))
+        elif rng.random() < 0.3:
+            ofmt = rng.choice(ORDERS) + rng.choice("bhiq" if signed else "BHIQ")
+            out.append(shape("var", "min", n, fmt, "cmp", p, rel=rng.choice(RELS), ka=ka, rhs="other", ofmt=ofmt))
+        else:
+            out.append(shape("var", "min", n, fmt, "cmp", p, rel=rng.choice(RELS), ka=ka, kc=kc))
+    return out
+
+
+def use_runs(s, quick, rnd, rot=0):
+    """runs of a cmp / reada program: one packet that fails the guard, then packets whose field holds
+    values next to the right-hand side, the format's limits, values that differ from their own low
+    32 bits, random ones (all with value + ka inside the format's range)"""
+    n, p, size, fmt, ka = s["n"], s["p"], s["size"], s["fmt"], s["ka"]
+    lo, hi = frange(fmt)
+    ovals = values(s["ofmt"], s["ofmt"], rnd) + [w for w in WIDE if frange(s["ofmt"])[0] <= w <= frange(s["ofmt"])[1]]
+    count = 6 if quick else 10
+    out = [([rnd.randrange(256) for _ in range(n)], encode(s["ofmt"], 0))]
+    for t in range(count):
+        w = ovals[(rot + t) % len(ovals)]
+        pivot = (s["kc"] if s["rhs"] == "const" else w) - ka if s["op"] == "cmp" else 0
+        ok = lambda v: lo <= v <= hi and lo <= v + ka <= hi
+        near = [v for v in (pivot + 1, pivot, pivot - 1) if ok(v)]
+        far = [v for v in WIDE + [lo, hi, 0, 1, -1, rnd.randrange(lo, hi + 1)] if ok(v)]
+        # alternate: next to the right-hand side / elsewhere (values beyond 32 bits first)
+        v = near[(t // 2) % len(near)] if near and (t % 2 == 0 or not far) else far[(rot + t // 2) % len(far)]
+        pkt = [rnd.randrange(256) for _ in range(n + 1 + (t % 3))]
+        pkt[p:p + size] = encode(fmt, v)
+        obytes = [SENT] * s["osz"] if s["op"] == "reada" else encode(s["ofmt"], w if s["rhs"] == "other" else 0)
+        out.append((pkt, obytes))
     return out
 
 
@@ -374,7 +497,8 @@ def build_runs(shape_runs, use_kernel):
             cases.append(dict(programs=[[]], entry=1, maps=[], progs=[], orc=[], pkt=[], arr=[], hash=[],
                               fuel=1, built=False, op=s["op"], fmt=list(s["fmt"]), p=s["p"], k=word(s["k"]),
                               guard=s["guard"], n=s["n"], abr=s["abr"], need=s["need"], mark=0,
-                              okind=s["okind"], o=s["o"], ofmt=list(s["ofmt"]), kern=[]))
+                              okind=s["okind"], o=s["o"], ofmt=list(s["ofmt"]), kern=[], rel=s["rel"],
+                              rhs=s["rhs"], ka=word(s["ka"], 16), kc=word(s["kc"], 16), br=0))
             meta.append(dict(s, length=0, field="", other="", verifier=None, random=is_random, code="",
                              pkt="", error=refused[-1]["error"]))
             continue
@@ -399,7 +523,8 @@ def build_runs(shape_runs, use_kernel):
                 c = progs.case(b, pkt=pkt, arr={1: bytes(arr0)}, fuel=400)
                 c.update(op=s["op"], fmt=list(s["fmt"]), p=s["p"], k=word(s["k"]), guard=s["guard"],
                          n=s["n"], abr=s["abr"], need=s["need"], mark=mark, okind=s["okind"], o=o,
-                         ofmt=list(s["ofmt"]), kern=[], built=True)
+                         ofmt=list(s["ofmt"]), kern=[], built=True, rel=s["rel"], rhs=s["rhs"],
+                         ka=word(s["ka"], 16), kc=word(s["kc"], 16), br=inst.__dict__.get("branch", 0))
                 if pfd is not None and len(pkt) >= KMIN:
                     inst.m[:] = bytes(arr0)
                     rv, out = kernel.test_run(pfd, bytes(pkt))
@@ -456,7 +581,8 @@ def judge(ctx, cases, meta):
         nontrivial = (took and m["op"] != "none") or (m["op"] == "none" and abs(m["length"] - m["n"]) <= 1) \
             or (not ok)
         ctx.evaluated((m["acc"], m["guard"], m["n"], m["fmt"], m["op"], m["p"], m["k"], m["ofmt"], m["okind"],
-                       m["o"], m["length"], m["pkt"], m["other"]), nontrivial=nontrivial)
+                       m["o"], m["rel"], m["rhs"], m["ka"], m["kc"], m["length"], m["pkt"], m["other"]),
+                      nontrivial=nontrivial)
         if i % 997 == 1:
             ctx.sample({k: m[k] for k in ("acc", "guard", "n", "fmt", "op", "p", "k", "ofmt", "okind", "o",
                                           "length", "verifier")})
@@ -480,7 +606,9 @@ def judge(ctx, cases, meta):
                 f"{'/'.join(why)} wrong: {json.dumps(obs)}")
         ctx.case_failed(case, f"{m['acc']} {m['fmt']!r} at {m['p']} {m['op']}"
                               f"{' k=' + str(m['k']) if m['op'] in ('const', 'iadd') else ''}"
-                              f"{' other=' + m['okind'] + ' ' + repr(m['ofmt']) + ' bytes ' + m['other'] if m['op'] in ('read', 'write', 'iaddv') else ''} under "
+                              f"{' ka=' + str(m['ka']) if m['op'] in ('cmp', 'reada') else ''}"
+                              f"{' ' + m['rel'] + ' ' + (str(m['kc']) if m['rhs'] == 'const' else 'other') if m['op'] == 'cmp' else ''}"
+                              f"{' other=' + m['okind'] + ' ' + repr(m['ofmt']) + ' bytes ' + m['other'] if m['op'] in ('read', 'reada', 'write', 'iaddv') or (m['op'] == 'cmp' and m['rhs'] == 'other') else ''} under "
                               f"{m['guard']} {m['n']} on a {m['length']}-byte packet "
                               f"(field {m['field']}): {what}"
                               f"{'; verifier ' + m['verifier'] if m['verifier'] else ''}"
@@ -536,12 +664,16 @@ def run(ctx):
     rnd = random.Random(0xC07)                     # fixed-seed contents of the gating grid
     shapes = grid(quick)
     pairs = pair_grid(quick)
-    n_grid = len(shapes) + len(pairs)
+    uses = use_grid(quick)
+    n_grid = len(shapes) + len(pairs) + len(uses)
     plan = [(s, (lambda s=s: runs_for(s, quick, rnd)), False) for s in shapes]
     plan += [(s, (lambda s=s, i=i: runs_for(s, quick, rnd, few=3 if quick else 5, rot=i)), False)
              for i, s in enumerate(pairs)]
+    plan += [(s, (lambda s=s, i=i: use_runs(s, quick, rnd, rot=i)), False) for i, s in enumerate(uses)]
     plan += [(s, (lambda s=s: runs_for(s, quick, ctx.rng, extra_random=4)), True)
              for s in random_shapes(ctx.rng, 12 if quick else 250)]
+    plan += [(s, (lambda s=s, i=i: use_runs(s, quick, ctx.rng, rot=i)), True)
+             for i, s in enumerate(random_uses(ctx.rng, 8 if quick else 120))]
     use_kernel = kernel.available()
     cases, meta, programs, refused, n_kernel_runs = build_runs(plan, use_kernel)
     if not cases:
@@ -554,7 +686,7 @@ def run(ctx):
                 "marker-only programs, the length is within 1 of the guard size, or the run fails")
     rejected = {code: v for code, v in programs.items() if v and v.startswith("rejected")}
     only_verifier = sorted(set(rejected) - faulted_programs)
-    ctx.extra.update(programs=len(programs), grid_shapes=n_grid, pair_shapes=len(pairs), generator_refused=len(refused),
+    ctx.extra.update(programs=len(programs), grid_shapes=n_grid, pair_shapes=len(pairs), use_shapes=len(uses), generator_refused=len(refused),
                      refused_examples=refused[:5], kernel=use_kernel, kernel_runs_cross_checked=n_kernel_runs,
                      verifier_rejected_programs=len(rejected),
                      verifier_rejected_without_machine_fault=len(only_verifier),
@@ -575,7 +707,7 @@ def run(ctx):
 def replay(ctx, case):
     """re-run one recorded failing case: same program shape, same packet, same other variable"""
     s = shape(case["acc"], case["guard"], case["n"], case["fmt"], case["op"], case["p"], case["k"],
-              case["ofmt"], case["okind"], case["o"])
+              case["ofmt"], case["okind"], case["o"], case["rel"], case["rhs"], case["ka"], case["kc"])
     runs = [(list(bytes.fromhex(case["pkt"])),
              list(bytes.fromhex(case["other"])) if case["okind"] == "map" else None)]
     cases, meta, _, refused, _ = build_runs([(s, runs, False)], kernel.available())
